@@ -47,7 +47,9 @@ class MCfg(object):
                  label=None, resp_len=3, req_len=2):
         self.clients = [dict(c) for c in clients]       # {"mac":1, "next_id":1}
         self.servers = list(servers)                     # macs
-        self.script = [tuple(s) for s in script]         # (client index, server mac, explicit invoke or None)
+        # (client index, server mac, explicit invoke or None[, "cb"]); "cb": the application submits this request
+        # synchronously from inside the confirmation of its previous request instead of at an explorer-chosen point
+        self.script = [tuple(s) for s in script]
         self.inj = inj
         self.dup = dup
         self.timers = timers
@@ -105,15 +107,29 @@ class MultiSystem(object):
         self.injected = []                               # frames we crafted: (src mac, dst mac, kind, invoke)
         self.aliases = {}                                # (client, peer, invoke) -> every request ever sent under that key
         self._seen_conf = [0 for _ in cfg.clients]
+        for ci, app in enumerate(self.clients):
+            self._hook_callback_submission(ci, app)
         self._seen_ind = {mac: 0 for mac in cfg.servers}
         self.ind_count = {}                              # (server mac, client mac, invoke, k) -> indications
         vclock.settle()
+
+    def _hook_callback_submission(self, ci, app):
+        orig = app.confirmation
+
+        def confirmation(apdu):
+            orig(apdu)
+            self._observe_confirmations()       # the reference learns of the outcome before the application goes on
+            k = self.next_script
+            if k < len(self.cfg.script) and len(self.cfg.script[k]) > 3 and self.cfg.script[k][3] == "cb" \
+                    and self.cfg.script[k][0] == ci:
+                self._submit(k)
+        app.confirmation = confirmation
 
     # ------------------------------------------------------------------ menu
     def menu(self):
         m = []
         cfg = self.cfg
-        if self.next_script < len(cfg.script):
+        if self.next_script < len(cfg.script) and not (len(cfg.script[self.next_script]) > 3 and cfg.script[self.next_script][3] == "cb"):
             m.append("submit")
         fl = self.wire.inflight
         for i in range(min(len(fl), cfg.deliver_width)):
@@ -161,35 +177,19 @@ class MultiSystem(object):
         self.history.append(label)
         cfg = self.cfg
         if label == "submit":
-            k = self.next_script
-            self.next_script += 1
-            ci, peer, inv = cfg.script[k]
-            try:
-                req = self.clients[ci].submit(Address(peer), cfg.req_len, service_number=k + 1, invoke=inv)
-                got = req.apduInvokeID
-                if got is None:
-                    self.problems.append(("submit-without-invoke-id", {"request": k + 1}))
-                else:
-                    key = (peer, got)
-                    if key in self.live[ci]:
-                        self.problems.append(("invoke-id-reused-while-live", {"request": k + 1, "peer": peer, "invoke": got,
-                                                                              "other": self.live[ci][key]}))
-                    self.live[ci][key] = k + 1
-                    self.aliases.setdefault((ci,) + key, set()).add(k + 1)
-            except RuntimeError as err:
-                # the stack may refuse an application-chosen ID that is in use; that is the documented contract
-                key = (peer, inv)
-                if inv is not None and key in self.live[ci]:
-                    self.outcome[k + 1] = ("refused-at-submit", False)
-                else:
-                    self.problems.append(("submit-raised:%s" % err, {"request": k + 1}))
+            self._submit(self.next_script)
         elif label.startswith("deliver") or label.startswith("dup"):
             dup = label.startswith("dup")
             i = int(label[3:] if dup else label[7:])
             fr = self.wire.inflight[i]
             if dup:
                 self.dup_left -= 1
+            before = [len(app.confirmations) for app in self.clients]
             self.wire.deliver(i, keep=dup)
+            for ci, app in enumerate(self.clients):
+                if len(app.confirmations) - before[ci] > 1:
+                    self.problems.append(("one-reply-frame-completed-several-requests",
+                                          {"client": ci, "confirmations": [(c[1], c[2], c[3], c[6]) for c in app.confirmations[before[ci]:]]}))
         elif label.startswith("answer"):
             mac, j = label[6:].split(".")
             try:
@@ -216,6 +216,30 @@ class MultiSystem(object):
             self.problems.append(("livelock", {"err": str(err)}))
         self._observe()
 
+    def _submit(self, k):
+        cfg = self.cfg
+        self.next_script = k + 1
+        ci, peer, inv = cfg.script[k][:3]
+        try:
+            req = self.clients[ci].submit(Address(peer), cfg.req_len, service_number=k + 1, invoke=inv)
+            got = req.apduInvokeID
+            if got is None:
+                self.problems.append(("submit-without-invoke-id", {"request": k + 1}))
+            else:
+                key = (peer, got)
+                if key in self.live[ci]:
+                    self.problems.append(("invoke-id-reused-while-live", {"request": k + 1, "peer": peer, "invoke": got,
+                                                                          "other": self.live[ci][key]}))
+                self.live[ci][key] = k + 1
+                self.aliases.setdefault((ci,) + key, set()).add(k + 1)
+        except RuntimeError as err:
+            # the stack may refuse an application-chosen ID that is in use; that is the documented contract
+            key = (peer, inv)
+            if inv is not None and key in self.live[ci]:
+                self.outcome[k + 1] = ("refused-at-submit", False)
+            else:
+                self.problems.append(("submit-raised:%s" % err, {"request": k + 1}))
+
     def _inject(self, ci, src, kind, inv):
         """Deliver a crafted frame to client ci right now and judge its effect against the reference."""
         app = self.clients[ci]
@@ -225,6 +249,9 @@ class MultiSystem(object):
         nconf = len(app.confirmations)
         pdu = PDU(craft(kind, inv), source=Address(src), destination=app.address)
         self.injected.append((src, self.cfg.clients[ci]["mac"], kind, inv))
+        k_live = self.live[ci].get(key)
+        if should_match:
+            self._inj_pending = (ci, key, k_live, kind)     # known before delivery: the outcome may be observed inside it
         try:
             Network.process_pdu(self.net, pdu)
         except Exception as err:
@@ -240,11 +267,9 @@ class MultiSystem(object):
                 self.problems.append(("foreign-reply-changed-client-state:%s" % kind,
                                       {"client": ci, "from": src, "invoke": inv, "live": sorted(self.live[ci])}))
         else:
-            k = self.live[ci][key]
             if kind == "SegmentAck":
                 if new:
-                    self.problems.append(("segment-ack-produced-confirmation", {"request": k}))
-            self._inj_pending = (ci, key, k, kind)
+                    self.problems.append(("segment-ack-produced-confirmation", {"request": k_live}))
 
     def injection_should_match(self, label):
         _, ci, src, kind, inv = label.split(":")
@@ -273,8 +298,12 @@ class MultiSystem(object):
 
     # ------------------------------------------------------------------ observation / reference bookkeeping
     def _observe(self):
-        inj = getattr(self, "_inj_pending", None)
+        self._observe_confirmations()
         self._inj_pending = None
+        self._observe_rest()
+
+    def _observe_confirmations(self):
+        inj = getattr(self, "_inj_pending", None)
         for ci, app in enumerate(self.clients):
             while self._seen_conf[ci] < len(app.confirmations):
                 c = app.confirmations[self._seen_conf[ci]]
@@ -313,6 +342,7 @@ class MultiSystem(object):
                 else:
                     if kind == "ack" and sn not in (99, None):
                         self.problems.append(("injected-ack-carries-other-tag", {"request": k, "tag": sn}))
+    def _observe_rest(self):
         # live invoke ids distinct per peer, as the real stack sees them
         for ci, app in enumerate(self.clients):
             seen = set()
